@@ -448,6 +448,48 @@ class Describer:
             return ("subp", S, first[0][1], first[1], first[1] + n)
         return None
 
+    def field_of(self, op, depth=0):
+        """("fld", param, (field names..)) when the operand is (a copy of / a reference to) a field path of a parameter,
+        or the parameter itself (empty path)"""
+        if op is None or depth > 10 or op[0] not in ("cp", "mv"):
+            return None
+        pl = op[1]
+        root = pl[0]
+        names = []
+        tid = self.fn["locals"][root][0]
+        for e in pl[1:]:
+            td = self.f.ty(tid)
+            if e == "*":
+                if td.get("k") in ("ref", "ptr"):
+                    tid = td["to"]
+                continue
+            if e[0] != "f":
+                return None
+            while td.get("k") in ("ref", "ptr"):
+                tid = td["to"]
+                td = self.f.ty(tid)
+            if td.get("k") != "adt" or not td.get("variants") or e[1] >= len(td["variants"][0][2]):
+                return None
+            names.append(str(td["variants"][0][2][e[1]][0]))
+            tid = td["variants"][0][2][e[1]][1]
+        if root != 0 and root <= self.fn["argc"]:
+            return ("fld", root, tuple(names))
+        d = self.b.single_def(root)
+        if not d or d[2] != "A":
+            return None
+        rv = d[3][2]
+        src = None
+        if rv[0] in ("ref", "rawptr"):
+            src = ["cp", rv[2]]
+        elif rv[0] == "use" and rv[1][0] in ("cp", "mv"):
+            src = rv[1]
+        if src is None:
+            return None
+        base = self.field_of(src, depth + 1)
+        if base is None:
+            return None
+        return ("fld", base[1], base[2] + tuple(names))
+
     def iterated_slice(self, l, depth=0):
         """for a local that is an iterator over a slice (`s.iter()`, possibly `.rev()` / by reference): the generic item
         `s[i]`; used when a closure handed to all / any / for_each / position is re-expressed at the call site"""
@@ -540,6 +582,14 @@ class Describer:
             if a is None or b_ is None:
                 return None
             return ("bin", D[1], a, b_)
+        if t == "fld":
+            i = D[1] - 1
+            if i >= len(args):
+                return None
+            base = self.field_of(args[i], depth + 1)
+            if base is None:
+                return ("v",)
+            return ("fld", base[1], base[2] + D[2])
         if t == "res":
             na = []
             for x in D[2]:
@@ -640,6 +690,8 @@ def render_value(D, fn):
         return "(%s %s %s)" % (render_value(D[2], fn), D[1], render_value(D[3], fn))
     if t == "res":
         return "res:%s(%s)" % (D[1], ",".join(render_arg(x, fn) for x in D[2] if x is not None))
+    if t == "fld":
+        return "%s.%s" % (fn["locals"][D[1]][1] or "_%d" % D[1], ".".join(D[2]))
     return "v"
 
 
